@@ -56,6 +56,10 @@ func newCoopObject(kind string) object {
 		return &bwrecvObj{cl: c, bw: blockwise.New(c, time.Hour, func(error) {}, nil), vu: map[int]int{}}
 	case "obstab":
 		return newObstabObj()
+	case "mapcb":
+		// the plain map; programs of this kind use lwfr (a callback with a scheduling point inside the critical section,
+		// which the step model does not have): judged, not replayed
+		return newMapObj()
 	}
 	return newObject(kind)
 }
